@@ -25,7 +25,7 @@ import threading
 
 from common import NCPU, MachineryFailure
 
-KEYF = ("clause", "op", "s", "form", "srck", "k", "rclass")
+KEYF = ("clause", "op", "s", "form", "srck", "k", "rclass", "lay")
 _LOCK = threading.Lock()
 
 
@@ -100,8 +100,8 @@ def _validate(c, traces, label, stats):
                 stats["pfail"] += 1
                 c.violation(
                     key,
-                    {"root": t["root"], "history": _brief(t["h"]), "step": r["l"], "source": {"k": r["srck"], "sh": r["srcsh"]}, "result": {"k": r["k"], "sh": r["sh"], "u": r["u"], "nm": r["nm"]}, "extra": r["extra"]},
-                    case={"root": t["root"], "h": t["h"]},
+                    {"root": t["root"], "lay": t["lay"], "history": _brief(t["h"]), "step": r["l"], "source": {"k": r["srck"], "sh": r["srcsh"]}, "result": {"k": r["k"], "sh": r["sh"], "u": r["u"], "nm": r["nm"]}, "extra": r["extra"]},
+                    case={"root": t["root"], "lay": t["lay"], "h": t["h"]},
                 )
             os.unlink(path)
 
@@ -140,8 +140,8 @@ def _single(c, stats):
     recs = [r for res in results for r in res.by_tag("H")]
     if len(recs) < 1000:
         raise MachineryFailure("too few histories exported")
-    recs.sort(key=lambda r: json.dumps([r["root"], r["h"]], sort_keys=True))
-    cases = [{"root": r["root"], "h": r["h"]} for r in recs]
+    recs.sort(key=lambda r: json.dumps([r["root"], r["lay"], r["h"]], sort_keys=True))
+    cases = [{"root": r["root"], "lay": r["lay"], "h": r["h"]} for r in recs]
     model_bad = {}
     for r in recs:
         for b in r["bad"]:
@@ -159,19 +159,19 @@ def _hist(c, stats):
     cfgt = open(c.spec + "/MC_C16_hist.cfg").read().replace("Depth = 3", "Depth = 2")
     open(c.spec + "/MC_C16_hist_run.cfg", "w").write(cfgt)
     res = c.tlc("MC_C16", "MC_C16_hist_run", workers=1, label="object-graph histories, exhaustive depth 2", required_actions=["Next"], timeout=3000)
-    cases = [{"root": r["root"], "h": r["h"]} for r in res.by_tag("H")]
+    cases = [{"root": r["root"], "lay": r["lay"], "h": r["h"]} for r in res.by_tag("H")]
     if depth > 2:
         # depth 3 with two constructors, the 8 roots partitioned over parallel TLC runs
         ns = max(1, min(NCPU, 4))
         jobs = []
         for k in range(ns):
-            cfg3 = open(c.spec + "/MC_C16_hist.cfg").read().replace("Depth = 3", f"Depth = {depth}").replace('Ctors = {"ctor_a", "ctor_am", "ctor_q", "mul_unit"}', 'Ctors = {"ctor_a", "ctor_q"}')
+            cfg3 = open(c.spec + "/MC_C16_hist.cfg").read().replace("Depth = 3", f"Depth = {depth}").replace('Ctors = {"ctor_a", "ctor_am", "ctor_q", "mul_unit"}', 'Ctors = {"ctor_a", "ctor_q"}').replace('Layouts = {"C", "F", "col"}', 'Layouts = {"C", "F"}')
             cfg3 = cfg3.replace("Slice = 0", f"Slice = {k}").replace("NSlices = 1", f"NSlices = {ns}")
             open(c.spec + f"/MC_C16_hist3_run{k}.cfg", "w").write(cfg3)
             jobs.append(("MC_C16", f"MC_C16_hist3_run{k}", dict(workers=1, label=f"object-graph histories, exhaustive depth {depth} slice {k}/{ns}", timeout=3000)))
         recs = [r for res3 in _parallel(c, jobs) for r in res3.by_tag("H")]
-        recs.sort(key=lambda r: json.dumps([r["root"], r["h"]], sort_keys=True))
-        cases += [{"root": r["root"], "h": r["h"]} for r in recs]
+        recs.sort(key=lambda r: json.dumps([r["root"], r["lay"], r["h"]], sort_keys=True))
+        cases += [{"root": r["root"], "lay": r["lay"], "h": r["h"]} for r in recs]
     c.cov["bound"].update({"hist_depth": depth, "hist_cases": len(cases)})
     if cases:
         c.cov["samples"].append({"root": cases[len(cases) // 3]["root"], "history": _brief(cases[len(cases) // 3]["h"])})
@@ -182,12 +182,12 @@ def _hist(c, stats):
     cfgt = open(c.spec + "/MC_C16_hist.cfg").read().replace("Depth = 3", f"Depth = {sdepth}").replace("INVARIANT Export", "INVARIANT ExportAny")
     open(c.spec + "/MC_C16_sim.cfg", "w").write(cfgt)
     res = c.tlc("MC_C16", "MC_C16_sim", workers=1, simulate=n_sim, depth=sdepth + 1, label=f"object-graph histories, simulation depth {sdepth}", timeout=3000)
-    sims = [{"root": r["root"], "h": r["h"]} for r in res.by_tag("H") if len(r["h"]) >= 3]
+    sims = [{"root": r["root"], "lay": r["lay"], "h": r["h"]} for r in res.by_tag("H") if len(r["h"]) >= 3]
     # the simulator evaluates the exporting invariant on every successor of each visited state: keep a seeded sample per family
     rnd = random.Random(c.seed)
     fam = {}
     for x in sims:
-        fam.setdefault(json.dumps([x["root"], x["h"][:-1]], sort_keys=True), []).append(x)
+        fam.setdefault(json.dumps([x["root"], x["lay"], x["h"][:-1]], sort_keys=True), []).append(x)
     sims = [x for k in sorted(fam) for x in rnd.sample(fam[k], min(2, len(fam[k])))]
     cap = c.q(3000, 40000)
     if len(sims) > cap:
@@ -196,6 +196,26 @@ def _hist(c, stats):
         c.cov["samples"].append({"root": sims[0]["root"], "simulated_history": _brief(sims[0]["h"])})
         _replay_and_validate(c, sims, "sim", stats)
     c.cov["simulated_histories"] = len(sims)
+
+
+def _mixed(c, stats):
+    """mixed-unit lists: every unit pattern (lengths 2-4, repeating and offset units) x call form x a few roots"""
+    ns = max(1, min(NCPU, 3))
+    jobs = []
+    for k in range(ns):
+        cfg = open(c.spec + "/MC_C16_mixed.cfg").read().replace("Slice = 0", f"Slice = {k}").replace("NSlices = 1", f"NSlices = {ns}")
+        if c.tier == "quick":
+            cfg = cfg.replace('Layouts = {"C", "F"}', 'Layouts = {"C"}').replace("MixQuick = FALSE", "MixQuick = TRUE")
+        open(c.spec + f"/MC_C16_mixed_run{k}.cfg", "w").write(cfg)
+        jobs.append(("MC_C16", f"MC_C16_mixed_run{k}", dict(workers=1, label=f"mixed-unit lists slice {k}/{ns}", timeout=3000)))
+    recs = [r for res in _parallel(c, jobs) for r in res.by_tag("H")]
+    if len(recs) < 500:
+        raise MachineryFailure("too few mixed-list cases exported")
+    recs.sort(key=lambda r: json.dumps([r["root"], r["lay"], r["h"]], sort_keys=True))
+    cases = [{"root": r["root"], "lay": r["lay"], "h": r["h"]} for r in recs]
+    c.cov["bound"].update({"mixed_cases": len(cases)})
+    c.cov["samples"].append({"root": cases[len(cases) // 2]["root"], "history": _brief(cases[len(cases) // 2]["h"])})
+    _replay_and_validate(c, cases, "mixed", stats)
 
 
 def _suite(c, stats):
@@ -233,8 +253,8 @@ def run(ck):
 
     if "VERIF_XMX" not in os.environ or os.environ["VERIF_XMX"].lower() not in ("1g", "2g", "3g"):
         os.environ["VERIF_XMX"] = "3g"  # several JVMs run side by side (this process only)
-    parts = [("single", _single, _fork(ck, 100000), _newstats()), ("hist", _hist, _fork(ck, 200000), _newstats()), ("suite", _suite, _fork(ck, 300000), _newstats())]
-    with cf.ThreadPoolExecutor(max_workers=3) as ex:
+    parts = [("single", _single, _fork(ck, 100000), _newstats()), ("hist", _hist, _fork(ck, 200000), _newstats()), ("suite", _suite, _fork(ck, 300000), _newstats()), ("mixed", _mixed, _fork(ck, 400000), _newstats())]
+    with cf.ThreadPoolExecutor(max_workers=4) as ex:
         futs = [ex.submit(f, c, st) for _, f, c, st in parts]
         errs = []
         for fu in futs:
